@@ -28,7 +28,14 @@ impl<'a> Parser<'a> {
     pub fn parse(&mut self) -> Result<Node, ParseError> {
         let ast = self.generate_ast(OperatorCategory::DefaultZero);
         match ast {
-            Ok(ast) => Ok(ast),
+            Ok(ast) => {
+                if self.current_token != Token::Eof {
+                    return Err(ParseError::UnableToParse(
+                        "Unexpected token after the end of the expression".to_string(),
+                    ));
+                }
+                Ok(ast)
+            }
             Err(e) => Err(e),
         }
     }
